@@ -339,6 +339,13 @@ func recipes() map[string][]Recipe {
 	for i, ab := range [][2]string{{`"/"`, `"."`}, {`"/"`, q(relA)}, {q(relDir), `"/"`}, {`"."`, `"/"`}, {`"/"`, `""`}} {
 		add("filepath.rel", pure(fmt.Sprintf("mixed%d", i), `r := try(func() { return filepath.rel(`+ab[0]+`, `+ab[1]+`) }, func(e) { return "E: " + string(e) })`))
 	}
+	// after a chdir to a RELATIVE directory the supplied OS may report a relative working directory: the
+	// answer may be whatever the supplied OS makes of it, but never the real process's directory
+	for i, op := range []string{`r := filepath.abs("VERIFSENT_n.txt")`, `r := filepath.abs(".")`, `r := filepath.abs("")`, `r := [os.getwd(), filepath.abs(` + q(relA) + `)]`,
+		`r := try(func() { return filepath.rel(os.getwd(), filepath.abs("VERIFSENT_n.txt")) }, func(e) { return "E: " + string(e) })`} {
+		add("filepath.abs", Recipe{Variant: fmt.Sprintf("after-rel-chdir%d", i), Setup: `os.chdir(` + q(relDir) + `)`, Op: op})
+		add("filepath.abs", Recipe{Variant: fmt.Sprintf("after-rel-cd%d", i), Setup: `cd(` + q(relDir) + `)`, Op: op})
+	}
 	add("filepath.abs", want(ev("", "dot", "", `r := filepath.abs(".")`), vCwd))
 	add("filepath.abs", want(ev("", "empty", "", `r := filepath.abs("")`), vCwd))
 	add("filepath.split", pure("", `r := filepath.split(`+q(relA)+`)`))
@@ -552,6 +559,12 @@ func buildScript(ctx, setup, op string) (main string, module string) {
 			"return r\n}, func(e) { return \"caught: \" + string(e) })\nverif_c <- verif_v\n}()\n<-verif_c\n", ""
 	case "clone", "late-clone", "late-call":
 		return "func verif_op() {\n" + body + "return r\n}\n", ""
+	case "cancel-defer":
+		pre := ""
+		if setup != "" {
+			pre = setup + "\n"
+		}
+		return "func verif_f() {\n" + pre + "defer " + strings.TrimPrefix(op, "r := ") + "\nverif_mark()\nfor {\n}\n}\nverif_f()\n", ""
 	case "module":
 		return "import " + modName + "\n" + modName + ".verif_result\n", body + "verif_result := r\n"
 	}
